@@ -1,0 +1,12 @@
+//go:build verif
+
+package prunner
+
+import "github.com/Flowpack/prunner/definition"
+
+// VerifDefs returns the currently installed definitions (simulation harness only).
+func (r *PipelineRunner) VerifDefs() *definition.PipelinesDef {
+	r.mx.RLock()
+	defer r.mx.RUnlock()
+	return r.defs
+}
